@@ -132,6 +132,19 @@ fn install_natives(ctx: &mut Context) {
 }
 
 fn eval_step(ctx: &mut Context, step: &Value) -> JsResult<JsValue> {
+    // raw inputs (C02): UTF-16 code units incl. lone surrogates, or arbitrary bytes incl. invalid UTF-8
+    if let Some(u) = step.get("u16").and_then(Value::as_array) {
+        let units: Vec<u16> = u.iter().map(|x| x.as_u64().unwrap_or(0) as u16).collect();
+        return ctx.eval(Source::from_utf16(&units));
+    }
+    if let Some(h) = step.get("hex").and_then(Value::as_str) {
+        let bytes: Vec<u8> = (0..h.len() / 2).map(|i| u8::from_str_radix(&h[2 * i..2 * i + 2], 16).unwrap_or(0)).collect();
+        return if step.get("via").and_then(Value::as_str) == Some("reader") {
+            ctx.eval(Source::from_reader(&bytes[..], None))
+        } else {
+            ctx.eval(Source::from_bytes(&bytes))
+        };
+    }
     let src = step.get("src").and_then(Value::as_str).unwrap_or("");
     let via = step.get("via").and_then(Value::as_str).unwrap_or("bytes");
     match via {
@@ -150,7 +163,12 @@ fn eval_step(ctx: &mut Context, step: &Value) -> JsResult<JsValue> {
 
 fn module_step(ctx: &mut Context, step: &Value) -> JsResult<JsValue> {
     let src = step.get("src").and_then(Value::as_str).unwrap_or("");
-    let m = Module::parse(Source::from_bytes(src), None, ctx)?;
+    let m = if let Some(u) = step.get("u16").and_then(Value::as_array) {
+        let units: Vec<u16> = u.iter().map(|x| x.as_u64().unwrap_or(0) as u16).collect();
+        Module::parse(Source::from_utf16(&units), None, ctx)?
+    } else {
+        Module::parse(Source::from_bytes(src), None, ctx)?
+    };
     let p = m.load_link_evaluate(ctx);
     ctx.run_jobs()?;
     match p.state() {
@@ -250,6 +268,7 @@ fn run_scenario(sc: Value) -> Value {
 
 fn main() {
     quiet_panics();
+    hcommon::start_watchdog();
     let args: Vec<String> = std::env::args().collect();
     let input: Box<dyn BufRead> = if args.len() > 1 {
         Box::new(std::io::BufReader::new(std::fs::File::open(&args[1]).expect("open input")))
@@ -270,6 +289,7 @@ fn main() {
             }
         };
         let id = sc.get("id").cloned().unwrap_or(Value::Null);
+        hcommon::arm_watchdog(sc.get("timeout_ms").and_then(Value::as_u64).unwrap_or(0));
         let res = match isolated(move || {
             let r = std::panic::catch_unwind(std::panic::AssertUnwindSafe(|| run_scenario(sc)));
             match r {
@@ -289,6 +309,7 @@ fn main() {
             }
             Err(m) => json!({"id": id, "panic": m}),
         };
+        hcommon::arm_watchdog(0);
         let mut lock = stdout.lock();
         serde_json::to_writer(&mut lock, &res).expect("write");
         lock.write_all(b"\n").expect("write");
